@@ -10,20 +10,32 @@ answering the set requests with a scripted sequence of ack / nack / lost request
     N ch_disable_all   A ch_enable_all   C channels_default_cfg         (N! / C! = writenow=True)
     W channels_write   T1 stream_start   T0 stream_stop  (issued by ONE of the application threads)
     s<c> stream_sub    u<k> stream_unsub (own k-th queue)   g<k> queue get (own k-th queue)
+    u<k>@<t> / g<k>@<t>  the same on the k-th queue of application thread t (a thread reading / unsubscribing ANOTHER
+                       thread's queue; a no-op while that thread has not subscribed)
     q<c> ch_is_enabled r<c> ch_div_get   i<c> dev_channel_get(c).data (device-info lock)
-with the stream running in part of the cases.  Every scheduling decision of the concurrent phase with
+with the stream running in part of the cases.  `lat=1` in a spec line (only with an ACK-capable acknowledging device and
+without T0 / T1 in the programs, see the end of this text) gives the device a processing latency: a request is held
+by the link and handled when the receive thread is next SCHEDULED (a scheduling choice, no time passes) instead of inside
+the client's write call — two requests of two threads can then be "on the wire" together, which is what shows whether the
+library serialises whole request + ACK exchanges.  Every scheduling decision of the concurrent phase with
 more than one candidate is recorded; a schedule is
     seed:<n>          seeded random choices
     script:<i,j,…>    explicit choice indices (index into the candidate list, 0 afterwards)
-and schedules are drawn three ways: seeded random; exhaustive enumeration of the first D decision
-points of tiny programs; all placements of <= k deviations from the all-zero (priority) schedule
+    stay:<i,j,…>      explicit choice indices, afterwards non-pre-emptive (the running thread keeps running while it can)
+and schedules are drawn four ways: seeded random; exhaustive enumeration of the first D decision
+points of tiny programs; all placements of <= k deviations from the all-zero (priority) schedule; all placements of <= k
+pre-emptions of the non-pre-emptive schedule (a thread that was switched to keeps running until it blocks: the
+request-overlap and check-then-act races of round 4 need 2 pre-emptions there, 3+ deviations from the priority schedule)
 (k = 2 quick / 3 thorough, capped per program — caps that were hit are listed in the evidence).
 Pinned schedules (`harness/corpus/C12/pinned.txt`, lines `#! c12 …`: the failing schedules of past
 seeded changes) run first in every tier.
 
-Trace at lock granularity.  Without touching /repo, the harness replaces the lock objects of the
-real instances by recording subclasses of `vsim.VLock` and wraps the public methods of the real
-objects (instance attributes).  The sequence of critical sections of the channels lock AND of the
+Trace at lock granularity.  Without touching /repo, the harness puts the lock objects THE LIBRARY CREATED into recording
+wrappers (`HookLock`: every operation is delegated to the library's own object — under vsim a `threading.Lock()` of the
+library is a `vsim.VLock`; anything else, e.g. a `contextlib.nullcontext()` used "as a lock", runs as it is, so a lock
+that does not exclude does not exclude in the harness run either and the oracle sees the stale answers / lost updates;
+further lock attributes the objects may carry are wrapped too, so that a hang names them) and wraps the public methods of
+the real objects (instance attributes).  The sequence of critical sections of the channels lock AND of the
 queue lock, in the order in which they were entered, each labelled with the call it belongs to and
 with what it showed (the configuration state seen just before the channels lock is released; the
 subscriber lists at the release of the queue lock; the answer of the stream thread's enabled check; the
@@ -57,8 +69,10 @@ outside the channels lock and ACK frames are not matched to requests.  Against a
 writer inside `channels_write` can consume the ACK of another thread's concurrent START request, mark its own
 enable request as written and release the channels lock before the device has applied it; `ch_is_enabled` then
 answers ahead of the device.  The property's operation list (configure, write, subscribe, unsubscribe, read) does
-not contain concurrent stream start / stop, the reference device applies a request inside the client's write call,
-and at most one application thread of a spec issues T0 / T1.  Reproduce (opt-in latency link):
+not contain concurrent stream start / stop, and at most one application thread of a spec issues T0 / T1; for that reason
+the `lat=1` specs of the check never contain T0 / T1 (with configure / write / subscribe / read only, the unchanged library
+shows no violation on the latency link: the channels lock serialises whole exchanges).  Reproduce (opt-in latency link for
+ANY spec, a held request handled at the next link read):
   VERIF_C12_LATENCY=1 /venv/bin/python harness/props/C12.py 'c12 n=2 flags=3 ty=6,10 en=00 div=0,0 stream=0 pol=- progs=T1|e0!|q0;q0;q0;q0 sched=script:1,0,0,3,0,0,0,0,0,2,1,2,2,0,0,0,0,1,0,2,1,1,0,1,1,1,1,0,1,1,2,1,1,1,1,1,0,1,0,1'
   -> stale-answer: ch_is_enabled(0) … returned True but the device's value of channel 0 was [False] throughout
 (control: the same with `W` in place of `T1`: no violation in 400 seeds + all schedules with <= 2 deviations).
@@ -97,7 +111,7 @@ def spec_line(spec, sched):
     pol = spec.get("pol")
     return (f"c12 n={n} flags={spec['flags']} ty={','.join(map(str, types)) or '-'} en={sl.bits(spec['en'])} "
             f"div={sl.ints(spec['div'])} stream={int(spec['stream'])} pol={','.join(pol) if pol else '-'} "
-            f"progs={'|'.join(';'.join(p) for p in spec['progs'])} sched={sched}")
+            f"{'lat=1 ' if spec.get('lat') else ''}progs={'|'.join(';'.join(p) for p in spec['progs'])} sched={sched}")
 
 
 def parse_spec(line):
@@ -110,22 +124,32 @@ def parse_spec(line):
     pol = kv.get("pol", "-")
     progs = [p.split(";") for p in kv["progs"].split("|")]
     return dict(n=n, flags=int(kv["flags"]), types=types, en=en, div=div, stream=kv["stream"] == "1",
-                pol=None if pol == "-" else pol.split(","), progs=progs, sched=kv["sched"])
+                pol=None if pol == "-" else pol.split(","), progs=progs, sched=kv["sched"], lat=kv.get("lat", "0") == "1")
+
+
+class Stay(list):
+    """explicit choice indices, and AFTERWARDS the non-pre-emptive default: the running thread keeps running while it can
+    (first candidate once it blocks) — a deviation from that schedule is one pre-emption"""
 
 
 def sched_parse(s):
-    """-> (seed | None, script list | None)"""
+    """-> (seed | None, script list | None); a `stay:` schedule gives a `Stay` list"""
     if s.startswith("seed:"):
         return int(s[5:]), None
+    if s.startswith("stay:"):
+        body = s[5:]
+        return None, Stay([int(x) for x in body.split(",")] if body not in ("", "-") else [])
     if s.startswith("script:"):
         body = s[7:]
         return None, ([int(x) for x in body.split(",")] if body not in ("", "-") else [])
     raise ValueError(s)
 
 
-def script_str(choices):
-    # trailing zeros are the default anyway
+def script_str(choices, stay=False):
     c = list(choices)
+    if stay:        # every recorded decision (the default afterwards is not "0")
+        return "stay:" + (",".join(map(str, c)) or "-")
+    # trailing zeros are the default anyway
     while c and c[-1] == 0:
         c.pop()
     return "script:" + (",".join(map(str, c)) or "-")
@@ -148,6 +172,7 @@ class XSim(vsim.Sim):
         self.phase = False
         self.xscript = []
         self.xrng = None
+        self.xstay = False
         self.xchoices = []
         self.xn = []
 
@@ -160,6 +185,8 @@ class XSim(vsim.Sim):
             i = self.xscript.pop(0) % len(cands)
         elif self.xrng is not None:
             i = self.xrng.randrange(len(cands))
+        elif self.xstay and self.cur in cands:
+            i = cands.index(self.cur)
         else:
             i = 0
         self.xchoices.append(i)
@@ -204,7 +231,7 @@ class Rec:
             elif sec["call"] is not None and sec["call"]["name"] == "stream_sub":
                 sec["qid"] = self.next_qid
                 self.next_qid += 1
-        self.open[lock.name] = sec
+        self.open[(lock.name, task)] = sec      # per task: a lock that does not exclude has several sections open at once
         self.sections.append(sec)
         if sec["call"] is not None:
             sec["call"]["sections"].append(sec)
@@ -212,7 +239,7 @@ class Rec:
     def on_exit(self, lock, task):
         if not self.active:
             return
-        sec = self.open.pop(lock.name, None)
+        sec = self.open.pop((lock.name, task), None)
         if sec is None:
             return
         if lock.name == "channels":
@@ -235,18 +262,33 @@ class Rec:
         sec["exit"] = self.tick()
 
 
-class HookLock(vsim.VLock):
-    def __init__(self, name, rec):
-        super().__init__()
+class HookLock:
+    """recording WRAPPER around the lock object the library itself created: every operation is delegated to that object
+    (whatever it is — under vsim a `threading.Lock()` of the library is a `vsim.VLock`; a `contextlib.nullcontext()` used
+    "as a lock" is wrapped as it is and does not exclude anybody in the harness run either), the wrapper only records who
+    entered / left and who is waiting"""
+
+    def __init__(self, name, rec, inner):
         self.name = name
         self.rec = rec
+        self.inner = inner
         self.waiters = []
 
-    def acquire(self, blocking=True, timeout=-1):
+    @property
+    def owner(self):
+        return getattr(self.inner, "owner", None)
+
+    def free(self):
+        if hasattr(self.inner, "owner"):
+            self.inner.owner = None
+        if hasattr(self.inner, "depth"):
+            self.inner.depth = 0
+
+    def acquire(self, *a, **k):
         me = vsim.sim().cur
         self.waiters.append(me)
         try:
-            ok = super().acquire(blocking, timeout)
+            ok = self.inner.acquire(*a, **k)
         finally:
             self.waiters.remove(me)
         if ok:
@@ -255,10 +297,27 @@ class HookLock(vsim.VLock):
 
     def release(self):
         self.rec.on_exit(self, vsim.sim().cur)
-        super().release()
+        return self.inner.release()
+
+    def locked(self):
+        return self.inner.locked()
+
+    def __enter__(self):
+        me = vsim.sim().cur
+        self.waiters.append(me)
+        try:
+            self.inner.__enter__()
+        finally:
+            self.waiters.remove(me)
+        self.rec.on_enter(self, me)
+        return self
+
+    def __exit__(self, *a):
+        self.rec.on_exit(self, vsim.sim().cur)
+        return self.inner.__exit__(*a)
 
 
-def make_link(sim, device, stream_every=None):
+def make_link(sim, device, stream_every=None, latency=False):
     """ICommInterface over the reference device (as refdev.make_link, with an adjustable poll interval: a read
     blocks at most `poll` virtual seconds; long while one thread talks, short in the concurrent phase)"""
     from nxslib.intf.iintf import ICommInterface
@@ -284,12 +343,14 @@ def make_link(sim, device, stream_every=None):
 
         def _read(self):
             self.reads += 1
-            if pending:
+            if pending and not latency:      # VERIF_C12_LATENCY=1 (opt-in scenario): a held request is handled at the next read
                 device.on_write(pending.pop(0))
             if stream_every and self.reads % stream_every == 0:
                 device.stream_tick()
-            ok = sim.block(lambda: len(device.rx) > 0, self.poll, "link-read")
-            if not ok:
+            sim.block(lambda: len(device.rx) > 0 or (latency and bool(pending)), self.poll, "link-read")
+            if pending and latency:      # `lat=1`: the device handles ONE held request whenever the reader gets to run (no time
+                device.on_write(pending.pop(0))      # passes: the latency is a scheduling choice, not a duration)
+            if not device.rx:
                 return b""
             out = bytes(device.rx)
             del device.rx[:]
@@ -299,7 +360,7 @@ def make_link(sim, device, stream_every=None):
             self.writes.append(bytes(data))
             self.wtask.append(sim.cur.name if sim.cur else "?")
             sim.yield_("link-write")
-            if LATENCY and getattr(sim, "phase", False):
+            if (LATENCY or latency) and getattr(sim, "phase", False):
                 pending.append(bytes(data))
             else:
                 device.on_write(bytes(data))
@@ -368,7 +429,7 @@ def sval(x):
 # one execution
 # ---------------------------------------------------------------------------------------------------------
 class Result:
-    __slots__ = ("line", "impl", "verdict", "choices", "ncands", "nontrivial", "spec", "split", "abnormal", "kinds")
+    __slots__ = ("line", "impl", "verdict", "choices", "ncands", "nontrivial", "spec", "split", "abnormal", "kinds", "stay")
 
 
 def run_spec(spec, seed=None, script=None):
@@ -415,18 +476,27 @@ def run_spec(spec, seed=None, script=None):
             return {"a": "ack", "x": "applied-ack-lost", "l": "lost"}.get(o) or ("nack", int(o[1:]))
 
         dev = LogDevice(sl.mk_chans(spec["en"], spec["div"], types=list(types)), flags=flags, policy=policy)
-        link = make_link(sim, dev, stream_every=2 if (spec["stream"] or any(op in ("T1",) for p in spec["progs"] for op in p)) else None)
+        has_t = any(op in ("T0", "T1") for p in spec["progs"] for op in p)
+        link = make_link(sim, dev, stream_every=2 if (spec["stream"] or any(op in ("T1",) for p in spec["progs"] for op in p)) else None,
+                         latency=bool(spec.get("lat")) and not has_t and bool(flags & 2) and not pol)
         rec.link = link
         nxm.queue.Queue = make_logqueue(rec)          # the shim namespace installed by vsim (restored on exit)
         nx = NxscopeHandler(link, Parser())
         comm = nx._comm
         holder["nx"] = nx
         nx.connect()
-        # instrument the real objects
-        locks = {"channels": HookLock("channels", rec), "queue": HookLock("queue", rec), "devinfo": HookLock("devinfo", rec)}
+        # instrument the real objects: the library's OWN lock objects stay in place, inside a recording wrapper
+        locks = {"channels": HookLock("channels", rec, comm._channels_lock), "queue": HookLock("queue", rec, nx._queue_lock),
+                 "devinfo": HookLock("devinfo", rec, comm._dev._channels_lock)}
         comm._channels_lock = locks["channels"]
         nx._queue_lock = locks["queue"]
         comm._dev._channels_lock = locks["devinfo"]
+        # any further lock the objects carry (none in the unchanged library) is wrapped too, so that a hang names it
+        for oname, obj in (("CommHandler", comm), ("NxscopeHandler", nx), ("Device", comm._dev)):
+            for attr, val in list(vars(obj).items()):
+                if isinstance(val, (vsim.VLock, vsim.VRLock)):
+                    locks[f"{oname}.{attr}"] = HookLock(f"{oname}.{attr}", rec, val)
+                    setattr(obj, attr, locks[f"{oname}.{attr}"])
         holder["locks"] = locks
 
         def snap():
@@ -463,9 +533,18 @@ def run_spec(spec, seed=None, script=None):
             rec.intents.append(it)
             return it
 
+        allqs = [[] for _ in spec["progs"]]
+
         def prog(k, ops):
-            qs = []
             for op in ops:
+                qs = allqs[k]
+                if op[0] in "ug" and "@" in op:        # `u<j>@<t>` / `g<j>@<t>`: the j-th queue of application thread t
+                    op, _, other = op.partition("@")
+                    qs = allqs[int(other) % len(allqs)]
+                step(op, qs, allqs[k])
+
+        def step(op, qs, mine):
+            if True:
                 wn = op.endswith("!")
                 if wn:
                     op = op[:-1]
@@ -501,7 +580,7 @@ def run_spec(spec, seed=None, script=None):
                         it = intent("div", a if isinstance(a, list) else [a], int(v))
                         nx.ch_divider(a, int(v), True) if wn else nx.ch_divider(a, int(v))
                     elif c == "s":
-                        qs.append(nx.stream_sub(int(op[1:])))
+                        mine.append(nx.stream_sub(int(op[1:])))
                     elif c == "u":
                         if qs:
                             nx.stream_unsub(qs[int(op[1:]) % len(qs)])
@@ -528,6 +607,7 @@ def run_spec(spec, seed=None, script=None):
         ths = [vsim.VThread(target=prog, args=(k, p), name=f"app{k}") for k, p in enumerate(spec["progs"])]
         out["phase_step"] = rec.tick()
         sim.xscript = list(script) if script else []
+        sim.xstay = isinstance(script, Stay)
         sim.xrng = random.Random(seed) if seed is not None else None
         link.poll = 0.02
         sim.phase = True
@@ -580,11 +660,12 @@ def run_spec(spec, seed=None, script=None):
                 nx._comm._started = False
                 nx._stream_started = False
             for l in holder.get("locks", {}).values():
-                l.owner = None
+                l.free()
 
     res = Result()
     res.spec = spec
     res.choices = list(sim.xchoices)
+    res.stay = isinstance(script, Stay)
     res.ncands = list(sim.xn)
     res.abnormal = None
     res.split = False
@@ -938,7 +1019,7 @@ def explore(spec, prefix, k, depth=None, cap=None, counter=None):
     """the run with script `prefix` (zeros afterwards), then every run that deviates from it at up to k later
     decision points (positions < depth); depth-first, each schedule once"""
     counter = counter if counter is not None else [0]
-    stack = [(list(prefix), k)]
+    stack = [(prefix if isinstance(prefix, Stay) else list(prefix), k)]
     while stack:
         pre, kk = stack.pop()
         if cap is not None and counter[0] >= cap:
@@ -951,8 +1032,9 @@ def explore(spec, prefix, k, depth=None, cap=None, counter=None):
         hi = len(res.choices) if depth is None else min(len(res.choices), depth)
         children = []
         for j in range(len(pre), hi):
-            for alt in range(1, res.ncands[j]):
-                children.append((res.choices[:j] + [alt], kk - 1))
+            for alt in range(res.ncands[j]):
+                if alt != (res.choices[j] if isinstance(pre, Stay) else 0):
+                    children.append((type(pre)(res.choices[:j] + [alt]), kk - 1))
         stack.extend(reversed(children))
 
 
@@ -1027,13 +1109,19 @@ def _job(job):
         prefix, k, depth, cap = arg
         counter = [0]
         gen = explore(spec, prefix, k, depth, cap, counter)
-        tag = (f"exhaustive-d{depth}" if kind == "exhaustive" else f"preempt-k{k + sum(1 for x in prefix if x)}") + f"-t{len(spec['progs'])}"
+        if kind == "exhaustive":
+            tag = f"exhaustive-d{depth}"
+        elif kind == "npreempt":
+            tag = f"npreempt-k{k + (1 if len(prefix) else 0)}"
+        else:
+            tag = f"preempt-k{k + sum(1 for x in prefix if x)}"
+        tag += f"-t{len(spec['progs'])}"
     for res in gen:
         nrun += 1
         maxdec = max(maxdec, len(res.choices))
         for kk in res.kinds:
             kinds[kk] = kinds.get(kk, 0) + 1
-        sp = spec_line(spec, script_str(res.choices))
+        sp = spec_line(spec, script_str(res.choices, res.stay))
         if res.verdict is not None and len(viol) < 3:
             v = dict(res.verdict)
             v["case"] = sp
@@ -1052,7 +1140,7 @@ def _job(job):
 # ---------------------------------------------------------------------------------------------------------
 # program generation
 # ---------------------------------------------------------------------------------------------------------
-def gen_prog(rng, n, length, ctl=False, acking=True, end_write=True):
+def gen_prog(rng, n, length, ctl=False, acking=True, end_write=True, others=()):
     """one application thread's program.  ctl: this thread may stop / start the stream."""
     ops = []
     nq = 0
@@ -1091,6 +1179,9 @@ def gen_prog(rng, n, length, ctl=False, acking=True, end_write=True):
         elif r < 0.91 or not nq:
             ops.append(f"s{c}")
             nq += 1
+        elif others and rng.random() < 0.35:
+            # another application thread's queue (no-op if that thread has not subscribed yet)
+            ops.append(f"{'u' if r < 0.95 else 'g'}{rng.randrange(2)}@{rng.choice(others)}")
         elif r < 0.96:
             ops.append(f"u{rng.randrange(nq)}")
         else:
@@ -1114,13 +1205,16 @@ def gen_spec(rng, nthreads=None, length=None, stream=None, flags=None, n=None, p
     ctl = rng.randrange(nt) if rng.random() < 0.35 else -1
     # a thread that does not end with a write: the final state is judged only if somebody else's write follows
     progs = [gen_prog(rng, n, length if length is not None else rng.randrange(1, 5), ctl=(k == ctl), acking=not pol,
-                      end_write=(k == 0 or rng.random() < 0.75)) for k in range(nt)]
-    return dict(n=n, flags=flags, types=types, en=en, div=div, stream=stream, pol=pol or None, progs=progs, sched="")
+                      end_write=(k == 0 or rng.random() < 0.75), others=[j for j in range(nt) if j != k]) for k in range(nt)]
+    # latency link (the device handles a request when the reader is next scheduled, not inside the write call): only
+    # with an acknowledging device and without stream start / stop in the concurrent phase (see the module doc)
+    lat = (not pol) and bool(flags & 2) and not any(op in ("T0", "T1") for p in progs for op in p) and rng.random() < 0.4
+    return dict(n=n, flags=flags, types=types, en=en, div=div, stream=stream, pol=pol or None, progs=progs, sched="", lat=lat)
 
 
-def T(flags, stream, n, progs, en=None, div=None, types=None, pol=None):
+def T(flags, stream, n, progs, en=None, div=None, types=None, pol=None, lat=False):
     return dict(n=n, flags=flags, types=types or ([6, 10, 4, 9, 11][:n]), en=list(en) if en is not None else [False] * n,
-                div=list(div) if div is not None else [0] * n, stream=stream, pol=pol, progs=progs, sched="")
+                div=list(div) if div is not None else [0] * n, stream=stream, pol=pol, progs=progs, sched="", lat=lat)
 
 
 TINY = [
@@ -1167,8 +1261,20 @@ TARGETED = [
     # requests rejected / lost: deadlock, exception and bounded time only
     T(3, False, 3, [["e0", "W", "e1", "W"], ["d0", "v5:1", "W", "q0"]], pol=["n3", "l", "a", "x", "a", "n1"]),
     T(1, True, 2, [["e0!", "s0", "g0", "W"], ["d0!", "e1!", "u0"]], pol=["l", "a", "l", "x"]),
+    # round 4: a writer's own query right after its write while another thread buffers a change (no exclusion at all);
+    # a divider request and an enable request of two threads against a device with latency (requests serialised?);
+    # a thread reading another thread's queue while that one unsubscribes it
+    T(3, False, 2, [["e0", "W", "q1"], ["e1", "W"]]),
+    T(3, False, 2, [["e0", "W", "q0"], ["v7:1", "W", "r1"]], lat=True),
+    T(3, False, 3, [["e0", "W"], ["v7:1", "W"], ["r1", "q0", "r1", "q0"]], lat=True),
+    T(3, True, 2, [["s0", "g0", "W", "u0", "W"], ["s1", "g0@0", "g0@0", "g0@0", "g0@0", "W"]], en=[True, False]),
+    T(3, True, 2, [["s0", "s1", "g0", "u1@1", "W"], ["s1", "g0@0", "u0@0", "g1", "W"]], en=[True, True], lat=True),
 ]
-QUICK_TARGETED = [0, 3, 4, 5, 6, 10, 11, 13, 15, 16]     # indices into TARGETED explored with <= k deviations in the quick tier
+QUICK_TARGETED = [0, 3, 4, 5, 6, 10, 11, 13, 15, 16, 18, 19, 21]     # indices into TARGETED explored with <= k deviations from
+#                                                                 the priority schedule in the quick tier
+QUICK_STAY = [0, 5, 10, 18, 19, 21]     # … explored with <= k pre-emptions of the non-pre-emptive schedule, quick tier
+THOROUGH_STAY = [0, 2, 5, 8, 10, 18, 19, 20, 21, 22]     # … thorough tier
+STAY_ONLY = [20, 22]                    # not explored from the priority schedule in the thorough tier
 
 
 def pinned_specs():
@@ -1192,11 +1298,14 @@ class C12(Prop):
             "types, device flags 0..3; acknowledging, or — about 15% of the random specs and two targeted ones — answering the "
             "set requests with a scripted sequence of ack / nack / lost / applied-but-ACK-lost); 2..4 application threads with "
             "programs over {enable, disable, divider (each also with writenow=True), disable_all, enable_all, "
-            "channels_default_cfg, write, sub, unsub, get, is_enabled, div_get, dev_channel_get, stream_start / stream_stop "
-            "from one of the threads}, most ending with a write, stream running in about half of the cases; schedules: pinned "
+            "channels_default_cfg, write, sub, unsub, get (own queue or another thread's), is_enabled, div_get, dev_channel_get, "
+            "stream_start / stream_stop from one of the threads}, most ending with a write, stream running in about half of the "
+            "cases; in part of the specs with an ACK-capable acknowledging device and no stream start / stop (`lat=1`) the "
+            "device handles a request when the receive thread is next scheduled instead of inside the write call; the "
+            "library's own lock objects stay in place (recording wrappers delegate to them); schedules: pinned "
             "(harness/corpus/C12/pinned.txt), exhaustive over the first D decision points of tiny 2-thread programs, every "
-            "placement of <= k deviations from the priority schedule (k = 2 quick, 3 thorough; per-program caps reported in "
-            "schedule_families_capped), seeded random; a case = one DISTINCT lock-level trace (sequence of critical sections "
+            "placement of <= k deviations from the priority schedule and of <= k pre-emptions of the non-pre-emptive schedule "
+            "(k = 2 quick, 3 thorough; per-program caps reported in schedule_families_capped), seeded random; a case = one DISTINCT lock-level trace (sequence of critical sections "
             "of the channels lock and of the queue lock with what each showed) as a `cfg run` / `locks run` history; "
             "executions counted separately as schedules_executed; non-trivial = the application threads' critical sections "
             "are interleaved (some thread's sections are not contiguous)")
@@ -1204,7 +1313,12 @@ class C12(Prop):
                    "switch points only at these primitives: pre-emption INSIDE a critical section between two primitives, the "
                    "GIL and the fairness of threading.Lock are not exercised (the property is partial in that sense)",
                    "the reference device (harness/refdev.py) is a conforming NxScope device that applies a request before "
-                   "the client's write call returns (no processing latency) and, unless scripted otherwise, acknowledges",
+                   "the client's write call returns or (`lat=1` specs: ACK-capable, acknowledging, no stream start / stop in "
+                   "the concurrent phase) when the receive thread is next scheduled, one held request at a time, and, unless "
+                   "scripted otherwise, acknowledges",
+                   "the mutual exclusion of the library's locks is that of the objects the library created, as vsim "
+                   "virtualises them (threading.Lock / RLock -> VLock / VRLock; anything else runs as it is); that the "
+                   "constructor IS threading.Lock is a fact of the regenerated lock table (import resolution)",
                    "connect / disconnect are issued by one thread before / after the concurrent phase (life cycle is C09); "
                    "stream_start / stream_stop are issued by at most ONE of the application threads of a spec",
                    "lock-level atomicity is argued from the regenerated lock table (Gen/Locks.lean), not derived from a "
@@ -1256,7 +1370,7 @@ class C12(Prop):
                 jobs.append(("exhaustive", spec, (pre, D, D, 1800 if T_ else 220)))
         # <= k deviations from the priority schedule
         k = 3 if T_ else 2
-        specs = list(TARGETED) if T_ else [TARGETED[i] for i in QUICK_TARGETED]
+        specs = [t for i, t in enumerate(TARGETED) if i not in STAY_ONLY] if T_ else [TARGETED[i] for i in QUICK_TARGETED]
         for _ in range(10 if T_ else 3):
             specs.append(gen_spec(rng, nthreads=rng.choice([2, 3]), length=rng.randrange(2, 4)))
         for spec in specs:
@@ -1271,6 +1385,19 @@ class C12(Prop):
             jobs.append(("preempt", spec, ([], 0, None, None)))
             for j, alt in firsts:
                 jobs.append(("preempt", spec, (base.choices[:j] + [alt], k - 1, None, cap)))
+        # <= k pre-emptions of the non-pre-emptive schedule (the running thread keeps running while it can)
+        for spec in [TARGETED[i] for i in (THOROUGH_STAY if T_ else QUICK_STAY)]:
+            with pinned():
+                base = run_spec(spec, script=Stay())
+            cap = 200 if T_ else 220
+            nfirst = 32 if T_ else 28
+            firsts = [(j, alt) for j in range(len(base.choices)) for alt in range(base.ncands[j]) if alt != base.choices[j]]
+            if len(firsts) > nfirst:
+                self.sampled.append(f"{prog_str(spec)}: {nfirst} of {len(firsts)} first-pre-emption positions (sampled)")
+                firsts = sorted(rng.sample(firsts, nfirst))
+            jobs.append(("npreempt", spec, (Stay(), 0, None, None)))
+            for j, alt in firsts:
+                jobs.append(("npreempt", spec, (Stay(base.choices[:j] + [alt]), k - 1, None, cap)))
         # seeded random
         for i in range(300 if T_ else 130):
             spec = gen_spec(rng, n=0 if i == 0 else None)
@@ -1369,7 +1496,7 @@ class C12(Prop):
             if res.verdict is None:
                 return None
             v = dict(res.verdict)
-            v["case"] = spec_line(spec, script_str(res.choices))
+            v["case"] = spec_line(spec, script_str(res.choices, res.stay))
             v["trace"] = res.line
             return v
         if line in self._verdict:
@@ -1392,6 +1519,13 @@ class C12(Prop):
                 firsts = sorted(rng.sample(firsts, 40))
             for j, alt in firsts:
                 jobs.append(("preempt", spec, (base.choices[:j] + [alt], 1, None, 80)))
+            with pinned():
+                base = run_spec(spec, script=Stay())
+            firsts = [(j, alt) for j in range(len(base.choices)) for alt in range(base.ncands[j]) if alt != base.choices[j]]
+            if len(firsts) > 40:
+                firsts = sorted(rng.sample(firsts, 40))
+            for j, alt in firsts:
+                jobs.append(("npreempt", spec, (Stay(base.choices[:j] + [alt]), 1, None, 80)))
         for _ in range(60):
             jobs.append(("random", gen_spec(rng, stream=True, flags=3), [rng.randrange(1 << 30) for _ in range(25)]))
         for _ in range(40):
@@ -1444,6 +1578,6 @@ if __name__ == "__main__":
         _res = run_spec(_spec, seed=_seed, script=_script)
         print("latency link:", LATENCY)
         print("verdict:", _res.verdict)
-        print("schedule:", script_str(_res.choices))
+        print("schedule:", script_str(_res.choices, _res.stay))
         print("trace:", _res.line)
         print("observed:", _res.impl)
